@@ -37,6 +37,10 @@ const (
 	transportSystemOpenArgs = "transport-system-open-args"
 )
 
+func noopOption(_ interface{}) error {
+	return util.ErrIgnoredOption
+}
+
 type optionDefinition struct {
 	Option string      `json:"option" yaml:"option"`
 	Value  interface{} `json:"value"  yaml:"value"`
@@ -57,9 +61,21 @@ func (o *optionDefinitions) asOptions() []util.Option { //nolint: gocyclo,gocogn
 
 			opts[i] = options.WithPort(intVal)
 		case authBypass:
-			opts[i] = options.WithAuthBypass()
+			// historically a flag (any value, or none, turns bypass on); an explicit boolean
+			// false now leaves it off
+			if boolVal, ok := opt.Value.(bool); ok && !boolVal {
+				opts[i] = noopOption
+			} else {
+				opts[i] = options.WithAuthBypass()
+			}
 		case authStrictKey:
-			opts[i] = options.WithAuthNoStrictKey()
+			// historically a flag (any value, or none, turns strict key checking *off*); an
+			// explicit boolean true now keeps strict key checking on
+			if boolVal, ok := opt.Value.(bool); ok && boolVal {
+				opts[i] = noopOption
+			} else {
+				opts[i] = options.WithAuthNoStrictKey()
+			}
 		case promptPattern:
 			strVal, ok := opt.Value.(string)
 			if !ok {
